@@ -60,6 +60,8 @@ const (
 )
 
 func runC16(c *an.Ctx) {
+	c16defaultCache(c)
+	devModeOnlyLookup(c, "C16.probe")
 	p := c.P
 	jet := p.Jet.TypesInfo
 	loaderFns := p.FnsReaching(ldExists, ldOpen)
